@@ -12,3 +12,4 @@ open AgdbDb
 #print axioms C08_arrays_init
 #print axioms C08_arrays_refine_step
 #print axioms C08_arrays_refine
+#print axioms C08_arrays_history
